@@ -79,8 +79,10 @@ def case_strategy(draw, tier="quick"):
                 shape[0] = numrecs
             if any(s == 0 for s in shape):
                 return None
-            s, c, sd = draw(G.box(shape))
-            rq = draw(req_for(v, vi, shape, s, c, sd, is_rec, numrecs))
+            s, c, sd = draw(G.box(shape, stride=not G.chance(draw, 35)))
+            # multi-record list-of-subarrays reads are split into one sub-request per record inside the library
+            gforce = "varn" if (is_rec and all(x == 1 for x in sd) and c and c[0] >= 2 and G.chance(draw, 60)) else None
+            rq = draw(req_for(v, vi, shape, s, c, sd, is_rec, numrecs, form=gforce))
             if rq["form"] == "vard":
                 rq = draw(req_for(v, vi, shape, s, c, sd, is_rec, numrecs, form="vars"))
             erange = False
@@ -122,6 +124,11 @@ def case_strategy(draw, tier="quick"):
 
     nrounds = draw(st.integers(1, 3 if not big else 5))
     define_posts = G.chance(draw, 25)
+    prefill = 0
+    if not define_posts and any(v["dims"] and dims[v["dims"][0]] == 0 for v in sch["vars"]) and G.chance(draw, 55):
+        # records that exist before the first round (written by a blocking collective call): the first round can already
+        # post reads of record variables
+        prefill = numrecs = draw(st.integers(2, 4))
     for rnd in range(nrounds):
         # ---- posts
         posts = []
@@ -189,7 +196,7 @@ def case_strategy(draw, tier="quick"):
                     if evk != "cancel":
                         numrecs = max(numrecs, pst.get("top", 0))
     # intra-node write aggregation at wait_all (hint nc_num_aggrs_per_node): 0 = off
-    return {"schema": sch, "k": k, "events": events, "aggr": min(k, draw(st.sampled_from([0, 0, 0, 1, 1, 2])))}
+    return {"schema": sch, "k": k, "events": events, "prefill": prefill, "aggr": min(k, draw(st.sampled_from([0, 0, 0, 1, 1, 2])))}
 
 
 def _fm_of(sch):
@@ -233,6 +240,19 @@ def build(case):
 
     if not in_define:
         attach()
+    if case.get("prefill") and not in_define:
+        npre = case["prefill"]
+        for vi, v in enumerate(sch["vars"]):
+            if not (v["dims"] and sch["dims"][v["dims"][0]] == 0):
+                continue
+            inner = [sch["dims"][d] for d in v["dims"][1:]]
+            sn = p.s.same_n()
+            for r in range(k):
+                rq = {"var": vi, "form": "vara", "start": [0] * (1 + len(inner)), "count": [npre if r == 0 else 0] + inner, "seed": 4242 + vi,
+                      "mt": M.XT_NATIVE_MT[v["xt"]], "vclass": v["vclass"] if v["vclass"] != "big" else "big"}
+                p.put(fm, r, rq, fm.numrecs if r else 0, coll=True, sn=sn, step=True)
+        p.op("fence", step=True, f="f0")
+        labels.add("prefilled_records")
     for ev in events:
         kind = ev["ev"]
         if kind == "post":
